@@ -351,3 +351,10 @@ Definition chewing_convert_x (sortu : list path -> list path) (spell : N -> list
 Definition chewing_convert (sortu : list path -> list path) (spell : N -> list N) (lookup : lookup_fn) (c : composition)
   : outcome (list (list interval)) :=
   bind (chewing_convert_x sortu spell lookup c) (fun r => Ok (fst r)).
+
+(* Editor::conversion(): paths[nth_conversion % paths.len()] *)
+Definition engine_alt (sortu : list path -> list path) (spell : N -> list N) (lookup : lookup_fn) (c : composition) (n : nat) : list interval :=
+  match chewing_convert sortu spell lookup c with
+  | Ok alts => List.nth (n mod length alts) alts []
+  | _ => []
+  end.
